@@ -103,6 +103,8 @@ func init() {
 		"internal/reflectlite.ValueOf":     extRLValueOf,
 		"(internal/reflectlite.Value).Len": extRLLen,
 
+		"internal/abi.NoEscape": func(fr *frame, a []value) value { return a[0] },
+		"internal/abi.Escape":   func(fr *frame, a []value) value { return a[0] },
 		"runtime.KeepAlive":   extNop,
 		"internal/race.Acquire": extNop,
 		"internal/race.Release": extNop,
@@ -261,6 +263,12 @@ func (p *Path) itoa(v value) value {
 		}
 		return strconv.FormatUint(uint64(asInt64(v)), 10)
 	}
+	return symString{tok: &itoaTok{p: p, v: si}}
+}
+
+// itoaBytes materialises the decimal digits of a symbolic integer: fork on
+// sign and digit count, then digit variables tied to the value.
+func (p *Path) itoaBytes(si symInt) []value {
 	ts := p.ts
 	w := si.t.sort.w
 	neg := false
@@ -308,7 +316,7 @@ func (p *Path) itoa(v value) value {
 		b := ts.BvBin("bvadd", ts.Extract(7, 0, digs[i]), ts.BV('0', 8))
 		out = append(out, p.mkInt(b, types.Uint8))
 	}
-	return mkStr(out)
+	return out
 }
 
 func extItoa(fr *frame, args []value) value { return fr.i.path.itoa(args[0]) }
@@ -376,8 +384,9 @@ func (p *Path) concreteString(v value, what string) string {
 		return s
 	}
 	ss := v.(symString)
-	bs := make([]byte, len(ss.b))
-	for i, b := range ss.b {
+	sb := strBytes(ss)
+	bs := make([]byte, len(sb))
+	for i, b := range sb {
 		bs[i] = byte(p.concreteInt(b, p.w.ex.opt.ByteEnum, what))
 	}
 	return string(bs)
